@@ -184,7 +184,8 @@ def run_case(i, seed, tier):
     else:
         h = common.History(cfg, seed * 1000003 + i, profile, max_size=5000)
         if i % 5 == 0:
-            h.apply({'op': 'duplicate_pvd'})
+            for _k in range(1 + (i // 5) % 2):
+                h.apply({'op': 'duplicate_pvd'})
         if i % 7 == 4:
             # edits continued on an object that opened the image mastered so far
             h.extend(nops // 2)
